@@ -207,6 +207,7 @@ def main(rec):
     # generated libraries with per-declaration overrides
     extra_specs = []
     libs = gen.libraries(thorough, count=(80 if thorough else 16), salt="c15")
+    all_libs = libs
     libs = [x for x in libs if x[0].startswith("gmix")] + [x for i, x in enumerate(libs) if not x[0].startswith("gmix") and (thorough or i % 5 == common.seed() % 5)]
     for name, d, meta in libs:
         d = copy.deepcopy(d)
@@ -295,25 +296,28 @@ def main(rec):
         rw = allrows.get(rid)
         if not rw:
             continue
-        for lang_on in ("c", "fortran", "python", "lua"):
+        # where: every function / only the ones in the innermost namespace / only the ones directly in the outer one
+        for lang_on, where in [(l_, w_) for l_ in ("c", "fortran", "python", "lua") for w_ in ("all", "deep", "outer")]:
             if lang_on not in rw["wraps"]:
                 continue
-            d = gen.library("nson_%s_%s" % (rid.replace("_", ""), lang_on), "c++", [(rw, None)], ())
+            d = gen.library("nson_%s_%s%s" % (rid.replace("_", ""), lang_on, "" if where == "all" else where), "c++", [(rw, None)], ())
             d["options"].update({"wrap_c": False, "wrap_fortran": False, "wrap_python": False, "wrap_lua": False})
             flags = {}
-            def walk2(ents):
+            def walk2(ents, depth=0):
                 for e_ in ents:
                     if e_.get("declarations") and e_["decl"].lstrip().startswith("namespace"):
-                        walk2(e_["declarations"])
+                        walk2(e_["declarations"], depth + 1)
                     else:
                         m_ = re.search(r"\b(f\d+[a-z0-9]+(?:_[a-z]+)?)\s*\(", e_["decl"])
                         if m_:
+                            here = where == "all" or (where == "deep" and depth >= 2) or (where == "outer" and depth == 1)
                             on = {"wrap_" + lang_on: True}
                             if lang_on == "fortran":
                                 on["wrap_c"] = True
-                            e_.setdefault("options", {}).update(on)
-                            fl_ = {"c": int(lang_on in ("c", "fortran")), "fortran": int(lang_on == "fortran"), "python": int(lang_on == "python"),
-                                   "lua": int(lang_on == "lua")}
+                            if here:
+                                e_.setdefault("options", {}).update(on)
+                            fl_ = {"c": int(here and lang_on in ("c", "fortran")), "fortran": int(here and lang_on == "fortran"),
+                                   "python": int(here and lang_on == "python"), "lua": int(here and lang_on == "lua")}
                             flags[m_.group(1)] = fl_
             walk2(d["declarations"])
             sp = make_spec(d["library"], "work/%s.yaml" % d["library"], workloads.dump_yaml(d), None, [],
@@ -322,7 +326,8 @@ def main(rec):
             specs.append(sp)
     # overload sets of which one member is switched off for C and Fortran only (it then follows the library-level
     # Python / Lua switches): the names of the remaining members must not depend on those switches
-    for name, d, meta in libs:
+    # (every single-row library with an overload set takes part in every run)
+    for name, d, meta in libs + [x for x in all_libs if x not in libs and not x[0].startswith("gmix")]:
         ents = [e for e in d["declarations"] if re.search(r"\b(f\d+[a-z0-9]+)\s*\(", e["decl"])]
         by = {}
         for e in ents:
